@@ -153,7 +153,7 @@ fn family(name: &str, i: u64) -> u64 {
 
 pub fn c14_cases(tier: &str) -> Vec<Value> {
     let caps: &[u64] = if tier == "quick" { &[1, 10, 64, 100, 1000] } else { &[1, 2, 10, 64, 100, 1000, 10_000] };
-    let rates = [0.001, 0.01, 0.1, 0.5, 0.72, 0.9, 0.99];
+    let rates = [1e-9, 1e-6, 1e-4, 0.001, 0.01, 0.1, 0.5, 0.72, 0.9, 0.99];
     let mut v = Vec::new();
     for &cap in caps {
         for &rate in &rates {
@@ -253,7 +253,15 @@ pub fn c14_case(case: &Value, acc: &mut CompAcc) {
             // checked: such hashes all share the base position by construction of this filter and
             // their strides overlap, so the unchanged filter reports 13 % of those probes present
             // at capacity 100 / rate 0.01; no Bloom filter bounds the rate for adversarial sets)
+            // (target rates below 0.001 - 14 to 30 probes per hash - are left out of the neighbour
+            // probes: in the 512-bit minimum filter the probes of one added hash wrap around its
+            // stride cycle, and a probe hash that moves the base by half the filter lands in the same
+            // cycle; the statement bounds the fraction over all never-added hashes, which the
+            // well-mixed probes below measure for every rate)
             for (addfam, how, deltas) in [("high-only", "low", [1u64, 2, 3]), ("mixed", "low", [1, 2, 3]), ("mixed", "top", [1 << 63, 1 << 62, 3 << 62])] {
+                if rate < 0.001 {
+                    continue;
+                }
                 let mut b = VBloom::new(cap as usize, rate);
                 let mut set = HashSet::new();
                 for i in 0..cap {
@@ -874,6 +882,15 @@ pub fn c07_cases(tier: &str) -> Vec<Value> {
     for n in (full_n + 1)..=7 {
         v.push(json!({"n": n, "chunk": 0, "chunks": 1, "mode": "structured"}));
     }
+    // residents charged nothing (or less than nothing) among the candidates: they are sampled and
+    // evicted like any other, although evicting them frees no room
+    for n in 1..=(if tier == "quick" { 4 } else { 6 }) {
+        let chunks = if n >= 5 { 27 } else { 1 };
+        for ch in 0..chunks {
+            v.push(json!({"n": n, "chunk": ch, "chunks": chunks, "mode": "full", "costs": [0, 2]}));
+            v.push(json!({"n": n, "chunk": ch, "chunks": chunks, "mode": "full", "costs": [-1, 2]}));
+        }
+    }
     v
 }
 
@@ -887,7 +904,10 @@ pub fn c07_case(case: &Value, acc: &mut CompAcc) {
     let pops_total = 3u64.pow(n as u32);
     let costs_total = 2u64.pow(n as u32);
     let pop_vals = [0u64, 1, 3];
-    let cost_vals = [1i64, 3];
+    let cost_vals: [i64; 2] = match case.get("costs").and_then(|c| c.as_array()) {
+        Some(a) => [a[0].as_i64().unwrap(), a[1].as_i64().unwrap()],
+        None => [1, 3],
+    };
     let mut pop_codes: Vec<u64> = (0..pops_total).filter(|c| c % chunks == chunk).collect();
     let mut cost_codes: Vec<u64> = (0..costs_total).collect();
     if structured {
